@@ -317,6 +317,10 @@ class Engine:
             return [(st, NORMAL, None)]
         if has_sym(list(args)) or has_sym(list(kwargs.values())):
             raise Unsupported('native call %s with symbolic arguments' % getattr(fn, '__name__', fn))
+        if any(type(a).__name__ in ('SFloat', 'SComplex', 'SHex', 'SLog2', 'SDec') for a in list(args) + list(kwargs.values())):
+            # model objects (dyadic float model etc.) must never reach native code: it would fail on their Python type and the
+            # failure would be mistaken for the real function's behaviour
+            raise Unsupported('native call %s with a modelled value (%s)' % (getattr(fn, '__name__', fn), ', '.join(sorted({type(a).__name__ for a in args}))))
         if has_unknown(list(args)) or has_unknown(list(kwargs.values())):
             return self.unknown_call(st, Unknown('native'), args, kwargs)
         if any(isinstance(a, (Closure, BoundClosure)) for a in args):
